@@ -134,6 +134,23 @@ def check_biv(case):
     bad = _compare(M, T, expected, "biv_as_mesh")
     if bad:
         return bad
+    # the requirements are Iterable[int]: every container form must give the same pattern
+    forms = (
+        ("tuple", tuple(idx), tuple(val)),
+        ("set", set(idx), set(val)),
+        ("iter", iter(idx), iter(val)),
+        ("generator", (i for i in idx), (v for v in val)),
+        ("map", map(int, idx), map(int, val)),
+        ("reversed", reversed(idx), reversed(val)),
+    )
+    for name, ci, cv in forms:
+        other = BivincularPatt(Perm(p), ci, cv)
+        if other != B or other.shading != sh or sorted(other.occurrences_in(T)) != sorted(expected):
+            return BAD("biv_container_" + name, {"got_shading": sorted(other.shading), "want_shading": sorted(sh)})
+    if not val and VincularPatt(Perm(p), iter(idx)).shading != sh:
+        return BAD("vincular_container_iter", {})
+    if not idx and CovincularPatt(Perm(p), (v for v in val)).shading != sh:
+        return BAD("covincular_container_generator", {})
     if not val:
         bad = _compare(VincularPatt(Perm(p), idx), T, expected, "vincular")
         if bad:
@@ -265,4 +282,5 @@ def run(acc, tier):
         engine.pmap(acc, shard_biv_exhaustive, extra=(3, 6))
         engine.pmap(acc, shard_generated, extra=(4000, 2000, 1500))
         sub = "all shadings of all patterns of length <= 2 x all permutations of length <= 6; all adjacency sets, patterns <= 3, permutations <= 6"
+        engine.fuzz(acc, "mesh", CHECKS, 30000, corpus_seeds=[[2, 7, 3, 5, 9, 1, 8, 2, 6, 0, 0, 1, 0, 0, 0, 2, 0, 0]])
     META["extra_cov"] = {"exhaustive_subdomain": sub}
